@@ -6,8 +6,6 @@ import importlib, io, os, sys, time
 VERIF = os.path.dirname(os.path.dirname(os.path.abspath(__file__)))
 sys.path.insert(0, VERIF)
 os.chdir(VERIF)
-import logging
-logging.disable(logging.CRITICAL)
 import warnings
 warnings.simplefilter("ignore")
 import coverage
@@ -15,6 +13,7 @@ SRC = "/repo/src/senaite/astm"
 cov = coverage.Coverage(branch=True, include=[SRC + "/*"], omit=[SRC + "/tests/*"], data_file=None)
 cov.start()
 from harness import common
+common.configure_logging()
 
 
 class Ctx(object):
